@@ -144,7 +144,12 @@ Definition lstep (P : params) (fixed : bool) (s : lsys) (t : nat) (ch : nat) : o
     end
   | LYield => Some (go LStart, LEv (Ev OYield 0%nat MoNone 0 0 0))
   | LWait =>
-    if l_lock s =? 1 then Some (go LBlocked, LEv (Ev OFwait lock_cell MoNone 1 1 1))
+    if l_lock s =? 1 then
+      (* the wait would block; a futex wait may also be interrupted (EINTR, choice 2) or
+         return spuriously (choice 3): the code ignores the result and retries the CAS *)
+      if Nat.eqb ch 2 then Some (go LStart, LEv (Ev OFwait lock_cell MoNone 1 1 2))
+      else if Nat.eqb ch 3 then Some (go LStart, LEv (Ev OFwait lock_cell MoNone 1 1 3))
+      else Some (go LBlocked, LEv (Ev OFwait lock_cell MoNone 1 1 1))
     else Some (go LStart, LEv (Ev OFwait lock_cell MoNone 1 (l_lock s) 0))
   | LEnterSeg =>
     let over := negb (l_incs s =? 0) in
